@@ -52,6 +52,21 @@ PROBES = [
 def gen(tape: Tape, tier: str) -> dict:
     if tape.chance("gen.kind.scan", 0.2):
         case = gen_scan_case(tape)
+    elif tape.chance("gen.kind.nd", 0.2):
+        # labels of 1-3 dimensions chunked along several axes, partial-axis reductions (C19's cell generator)
+        from . import c19
+        from ..cases import dec_value, enc_value
+
+        case = c19.gen(tape, tier)
+        case["kind"] = "reduce"
+        kw = dec_value(case["kwargs"])
+        m = tape.choice("gen.nd.method", ["map-reduce", "cohorts", None])
+        if m is not None:
+            kw["method"] = m
+        case["kwargs"] = enc_value(kw)
+        nb = len(case["chunks"][-1])
+        case["knobs"] = swarm_knobs(tape, nb)
+        case["meta"]["ngroups"] = 0
     else:
         case = gen_reduce_case(
             tape,
